@@ -10,6 +10,8 @@
    [sent_by Helper] / [rcvd_by Helper] are the helper's own entries. *)
 From Coq Require Import Permutation.
 From Typ Require Import Lib.Base Lib.Chan Chans.Helpers Chans.HelpersProofs.
+(* imported only so that bin/check's build closure keeps the correspondence module up to date *)
+From Typ Require Chans.HelpersCheck.
 
 (* ---- the channel machine: nothing is lost, duplicated or invented ---- *)
 
